@@ -10,6 +10,7 @@ import Pike.Driver.Config
 import Pike.Driver.Upsel
 import Pike.Driver.Crash
 import Pike.Driver.Reconf
+import Pike.Driver.Proxy
 open Pike.Driver
 
 structure St where
@@ -18,6 +19,7 @@ structure St where
   sched : SchedSt := {}
   crash : CrashSt := {}
   reconf : ReconfSt := {}
+  proxy : ProxySt := {}
 
 def judgeLine (st : St) (line : String) : St × String :=
   match line.splitOn "\t" with
@@ -26,6 +28,7 @@ def judgeLine (st : St) (line : String) : St × String :=
   | "race" :: "bad" :: _ => (st, "ok race-bad 1 TRIP wrong_body_for_key")
   | "sched" :: rest => let (d, v) := judgeSched st.sched rest; ({ st with sched := d }, v)
   | "resp" :: rest => let (d, v) := judgeResp st.resp rest; ({ st with resp := d }, v)
+  | "proxy" :: rest => let (d, v) := judgeProxy st.proxy rest; ({ st with proxy := d }, v)
   | "reconf" :: rest => let (d, v) := judgeReconf st.reconf rest; ({ st with reconf := d }, v)
   | "crash" :: rest => let (d, v) := judgeCrash st.crash rest; ({ st with crash := d }, v)
   | "upsel" :: rest => (st, judgeUpsel rest)
